@@ -1126,6 +1126,8 @@ func upWireType(fd protoreflect.FieldDescriptor) protowire.Type {
 
 func engineUnmarshalProg(cfg config, o *out) {
 	schemas := loadSchemas()
+	cc := newClassCov("unmarshalprog")
+	defer cc.emit(o)
 	ops := map[string]int{}
 	for _, si := range schemas {
 		o.raw("SCHEMA\t" + si.id + "\t=\t" + si.sexp())
@@ -1178,6 +1180,7 @@ func engineUnmarshalProg(cfg config, o *out) {
 			o.kase("@UNMARSHALDEF", append(args, prog), "ok")
 			o.kase("UNMARSHALPROG", append(args, "eqb"), "same")
 			o.count("translated")
+			cc.message(si, mi)
 			o.nontrivial("prog/" + prog)
 			for _, form := range []string{"(var", "(:=", "(=", "(idx=", "(idx+=", "(varint", "(ret", "(if", "(ifelse", "(for", "(switch", "(case", "(rangecount",
 				"(fset", "(fappend", "(oset", "(oreuse", "(unmarshal", "(bytesset", "(copy", "(mapstore", "(skip", "(unkappend"} {
